@@ -12,7 +12,7 @@ import (
 func init() {
 	register(&Prop{
 		ID:          "C01",
-		Explanation: "Decides the control-flow skeleton of 'served only if credential or bypass': every protected sink (load of the upstream handler, the 202 writer of the auth-only endpoint, every success write of the user-info endpoint) is reached only on paths where getAuthenticatedSession returned a nil error; every nil-error return of getAuthenticatedSession has the bypass predicate true or (session non-nil, e-mail empty or validated, Authorize true); IsAllowedRequest is true only through preflight&&OPTIONS, isAllowedRoute or isTrustedIP and is called only from getAuthenticatedSession; RequestScope.Session is written only by the three session loaders and only with result #0 of their verified getter; each getter returns non-nil only after its verification call succeeded; cookie-store Load and ticket decoding succeed only behind encryption.Validate ok, which needs checkSignature true, which needs hmac.Equal; the route table wraps every session-consuming handler in sessionChain. Added during the build: the skip-auth decision consumes only the guarded, query-free request path (R9, shared with C15.R1); the trusted-IP set inserts into the same-mask map it looks up and the htpasswd validator answers true only by comparing against the entry it read (R10, shared with C15.R5 / C20.R2).",
+		Explanation: "Decides the control-flow skeleton of 'served only if credential or bypass': every protected sink (load of the upstream handler, the 202 writer of the auth-only endpoint, every success write of the user-info endpoint) is reached only on paths where getAuthenticatedSession returned a nil error; every nil-error return of getAuthenticatedSession has the bypass predicate true or (session non-nil, e-mail empty or validated, Authorize true); IsAllowedRequest is true only through preflight&&OPTIONS, isAllowedRoute or isTrustedIP and is called only from getAuthenticatedSession; RequestScope.Session is written only by the three session loaders and only with result #0 of their verified getter; each getter returns non-nil only after its verification call succeeded; cookie-store Load and ticket decoding succeed only behind encryption.Validate ok, which needs checkSignature true, which needs hmac.Equal; the route table wraps every session-consuming handler in sessionChain. Added during the build: the skip-auth decision consumes only the guarded, query-free request path (R9, shared with C15.R1); the trusted-IP set inserts into the same-mask map it looks up and the htpasswd validator answers true only by comparing against the entry it read (R10, shared with C15.R5 / C20.R2). Round 3: issuer verification of bearer-token verifiers is switched off only by the operator's option (R11); without a header parser the client address is net.ParseIP(SplitHostPort(req.RemoteAddr)#0) and nothing else (R12).",
 		NotDecided:  "that a valid credential always verifies (values), correctness of HMAC/AES (trusted), string semantics of validators.",
 		Run:         runC01,
 	})
